@@ -120,4 +120,6 @@ VARIANTS += [
     dict(id="c03-rdb-number-counted-before-insert", prop="C03", file=RDB, expect="R03.4",
          old="        session.add(trial)\n\n        # Flush the session cache to reflect the above addition operation to\n",
          new="        n_before = trial.count_past_trials(session)\n        session.add(trial)\n\n        # Flush the session cache to reflect the above addition operation to\n"),
+    dict(id="c03-partial-line-offset-kept", prop="C03", file="optuna/storages/journal/_file.py", expect="R03.11",
+         old="                    del self._log_number_offset[log_number + 1]\n", new="", count=2),
 ]
